@@ -8,6 +8,7 @@ from mirsym import models_std
 from mirsym.models_std import box
 from mirsym.values import Agg, Enum, Ptr, Seq, BStr, UNIT, Panic, Unwind, bv, bstr, is_abnormal
 from mirsym.harness import Decider, finish_engine, find_fn
+from vlib.par import run_parallel
 from vlib.common import BUILD, VERIF, REPO, env_offline, Inconclusive
 
 T = 'conjure_codegen::types::'
@@ -293,20 +294,21 @@ def run(rep, tier):
         plans = [('N2-full', 2, 2, FULL, 2), ('N3-mid', 3, 2, MID, 1), ('N3-reduced-2prior', 3, 2, REDUCED, 2), ('N4-reduced', 4, 2, REDUCED, 1)]
     rep.bounds['graphs'] = {p[0]: dict(types=p[1], members=p[2], kinds=[KIND_NAMES[k] for k in p[3][0]], safety=[SAF_NAMES[s] for s in p[3][1]],
                                        member_types=list(p[3][2]), prior_calls=p[4]) for p in plans}
-    t_budget = 900 if tier == 'quick' else 1700
-    t0 = time.time()
-    for name, N, F, alpha, prior in plans:
-        if time.time() - t0 > t_budget:
-            rep.extra.setdefault('plans_skipped_for_time', []).append(name)
-            continue
-        run_plan(rep, prog, entry, name, N, F, alpha, prior)
+    gen_binary('dev')          # built once before the configurations fan out over processes
+    # one job per plan and per type the call under test refers to (the cases partition the plan's query)
+    jobs = [(p, last) for p in plans for last in range(p[1])]
+
+    def worker(sub, job):
+        (name, N, F, alpha, prior), last = job
+        run_plan(sub, prog, entry, name, N, F, alpha, prior, last)
+    run_parallel(rep, jobs, worker)
     rep.assumptions += ['HashMap<TypeName, TypeContext> indexing = lookup by the referenced type (every reference resolves: validated IR)',
                         'RefCell borrow flags are not modelled (a double borrow would panic; none of the executed paths nests borrows of one cell)',
                         'std: Option::{as_ref, cloned, or_else}, slice::iter, Iterator::{map, try_fold, fold, any} by contract, calling the real closures']
     rep.outside += ['type graphs with more types / members than the listed plans', 'the token emission (quote!) is covered by the native replay only']
 
 
-def run_plan(rep, prog, entry, name, N, F, alpha, prior):
+def run_plan(rep, prog, entry, name, N, F, alpha, prior, last_target=None):
     it = Interp(prog, models_std.MODELS + MODELS, {}, unwind=F + 6,
                 merge=(r'::context::<impl at [^>]*>::(type_log_safety|combine_safety|is_safe_arg|is_legacy_safe|primitive_log_safety)',))
     dec = Decider(rep, it)
@@ -315,6 +317,9 @@ def run_plan(rep, prog, entry, name, N, F, alpha, prior):
     st.pc += g.cons
     order = [z3.BitVec(f'call{k}', 64) for k in range(prior + 1)]
     st.pc += [z3.ULT(o, N) for o in order]
+    if last_target is not None:
+        st.pc.append(order[-1] == last_target)
+        name = f'{name}:last=T{last_target}'
     asaf = z3.BitVec('asaf', 8)
     tag0 = z3.BitVec('tag0', 8)
     st.pc += [z3.ULE(asaf, 3), z3.Or(tag0 == ord('s'), tag0 == ord('t'))]
